@@ -11,7 +11,8 @@ CONTAINERS = {  # external ADTs that are descended through (some of) their type 
     "std::vec::Vec": [0], "std::boxed::Box": [0], "std::option::Option": [0], "std::sync::Arc": [0],
     "std::collections::HashMap": [0, 1], "std::collections::BTreeMap": [0, 1], "std::collections::BTreeSet": [0],
     "std::collections::VecDeque": [0], "std::collections::HashSet": [0], "std::result::Result": [0, 1],
-    "std::marker::PhantomData": [], "std::ops::Range": [0],
+    "std::marker::PhantomData": [], "std::ops::Range": [0], "std::ops::RangeInclusive": [0], "std::ops::RangeFrom": [0],
+    "std::ops::RangeTo": [0], "std::ops::RangeToInclusive": [0],
 }
 LEAF_OK = re.compile(r"^(std::string::String|std::str::CharIndices|std::str::Chars|regex_syntax::ast::.*|rustc_hash::FxBuildHasher|"
                      r"std::alloc::Global|std::path::PathBuf|std::time::Instant)$")
@@ -212,9 +213,14 @@ def analyze(ctx, want):
         for bb, t in fn.calls():
             n = M.call_name(t)
             if backdoor.search(n):
-                ok = re.search(r"ScannerCache::get$", fn.name) is not None and re.search(r"Arc::<.*>::as_ptr$", n) is not None
-                for rule in ("C12.c", "C14.c"):
-                    ob(rule, "backdoor:%s:%s" % (M.short_name(fn.name), M.short_name(n)), ok, "%s calls %s%s" % (fn.name, n, "" if ok else " (not in the audited list)"), fn.loc(bb))
+                # accounted at the known function(s) on whose behalf the call runs (a helper extracted from ScannerCache::get
+                # is still ScannerCache::get's code)
+                from .common import owners as owners_
+                onames = sorted(set(o.name for o, _ in owners_(F, fn))) or [fn.name]
+                for on in onames:
+                    ok = re.search(r"ScannerCache::get$", on) is not None and re.search(r"Arc::<.*>::as_ptr$", n) is not None
+                    for rule in ("C12.c", "C14.c"):
+                        ob(rule, "backdoor:%s:%s" % (M.short_name(on), M.short_name(n)), ok, "%s calls %s%s" % (fn.name if on == fn.name else "%s (on behalf of %s)" % (fn.name, on), n, "" if ok else " (not in the audited list)"), fn.loc(bb))
 
     # ============================================================== unsafe audit (C14.b/c)
     uimpls = [i for i in F.impls if i["of_trait"] and (i["unsafe"] or re.search(r"marker::(Send|Sync)$", i["trait"]))]
@@ -235,9 +241,13 @@ def analyze(ctx, want):
     for u in ub:
         fn = F.fns.get(u["fn"])
         name = fn.name if fn else u["fn"]
-        rows = [(rx, v) for rx, v in allowed_unsafe.items() if re.search(rx, name)]
-        # keyed by the function the block is written in (closure numbering is not part of the identity)
-        name = re.sub(r"(::\{closure#\d+\})+$", "", name)
+        # keyed by the known function the block runs on behalf of: the function it is written in (closure numbering is not part
+        # of the identity), or — for a helper introduced later — the known functions that call the helper
+        from .common import owners as owners_
+        onames = sorted(set(o.name for o, _ in owners_(F, fn))) if fn else []
+        onames = onames or [re.sub(r"(::\{closure#\d+\})+$", "", name)]
+        rows = [(rx, v) for rx, v in allowed_unsafe.items() if all(re.search(rx, on) for on in onames)]
+        name = onames[0]
         if not rows:
             ob("C14.c", "unsafe-block:" + M.short_name(name), False, "unsafe block in %s is not in the audited list" % name, "%s:%d" % (u["file"], u["ln"]))
             continue
